@@ -148,16 +148,16 @@ func c06rWire(toks []string) ([][]byte, bool) {
 			rec = c06rRecord(22, seq, []byte{0, 0, 0, 0})
 		case t == "s":
 			rec = c06rRecord(20, seq, []byte{1})
-		case t == "t" || t == "ta" || t == "u" || t == "ua":
+		case t == "t" || t == "ta" || c07HdrCut(t) > 0:
 			typ := byte(23)
-			if strings.HasSuffix(t, "a") {
+			if strings.HasSuffix(strings.TrimRight(t, "1234"), "a") {
 				typ = 21
 			}
 			rec = c06rRecord(typ, seq, []byte{1, 0})
 			if t[0] == 't' {
 				rec = rec[:5+(len(rec)-5)/2]
 			} else {
-				rec = rec[:3]
+				rec = rec[:c07HdrCut(t)] // u, ua: 3 header bytes; u1..u4, ua1..ua4: that many
 			}
 			last = true
 		case strings.HasPrefix(t, "d:"):
@@ -309,6 +309,9 @@ loop:
 			break loop
 		case t == "u":
 			wire = append(wire, 22, 1)
+			break loop
+		case c07HdrCut(t) > 0 && t[1] != 'a': // u1..u4: that many header bytes
+			wire = append(wire, c06rPlain(22, make([]byte, 10))[:c07HdrCut(t)]...)
 			break loop
 		case strings.HasPrefix(t, "h:"):
 			p, ok := unhx(t[2:])
